@@ -86,6 +86,36 @@ func (t *T) TakeOutput(settle bool) []byte {
 	return o
 }
 
+// TakeSettled returns everything the emulator has written so far, without
+// depending on timing: a status request (DSR 5) is fed to the emulator, whose
+// answer goes through the same pipe behind whatever was written before; the
+// call returns once the reader goroutine has delivered that answer, which is
+// then cut off.
+func (t *T) TakeSettled() []byte {
+	const marker = "\x1b[0n"
+	func() {
+		defer func() { _ = recover() }()
+		for _, seq := range Parse([]byte("\x1b[5n")) {
+			t.M.VerifUpdate(seq)
+		}
+	}()
+	deadline := time.Now().Add(20 * time.Second)
+	for {
+		t.mu.Lock()
+		if i := bytes.LastIndex(t.out, []byte(marker)); i >= 0 && i+len(marker) == len(t.out) {
+			o := append([]byte(nil), t.out[:i]...)
+			t.out = nil
+			t.mu.Unlock()
+			return o
+		}
+		t.mu.Unlock()
+		if time.Now().After(deadline) {
+			return t.TakeOutput(false)
+		}
+		time.Sleep(20 * time.Microsecond)
+	}
+}
+
 // Parse turns child output bytes into sequences with the library's own
 // parser, exactly as the PTY goroutine receives them.
 func Parse(b []byte) []ansi.Sequence {
